@@ -242,7 +242,18 @@ func (m *MemPager) RUnlock() error {
 }
 func (m *MemPager) CheckReservedLock() (bool, error) { return m.Reserved, nil }
 
-func hx(s string) string { return hex.EncodeToString([]byte(strings.ToLower(s))) }
+// asciiLower folds A-Z only, the way SQLite folds identifiers ('É' and 'é' are different names)
+func asciiLower(s string) string {
+	b := []byte(s)
+	for i, c := range b {
+		if c >= 'A' && c <= 'Z' {
+			b[i] = c + 'a' - 'A'
+		}
+	}
+	return string(b)
+}
+
+func hx(s string) string { return hex.EncodeToString([]byte(asciiLower(s))) }
 
 func showIcols(cs []sdb.IndexColumn) string {
 	if len(cs) == 0 {
